@@ -113,6 +113,21 @@ func init() {
 		}
 		return OkV(B([]byte(str)))
 	})
+	// a sequence of ParameterisedIdentifier.String() calls in one go (what the signer uses): a refused call
+	// must leave nothing behind for the next one
+	regOp("sh_ser_pi_seq", func(a []Sx) Sx {
+		out := []Sx{}
+		for _, s := range a {
+			pi := shPiOf(s)
+			str, err := pi.String()
+			if err != nil {
+				out = append(out, ErrV())
+			} else {
+				out = append(out, OkV(B([]byte(str))))
+			}
+		}
+		return L(out...)
+	})
 	regOp("sh_ser_lol", func(a []Sx) Sx {
 		ll := sh.ListOfLists{}
 		for _, s := range a {
